@@ -72,6 +72,17 @@ def Leaf.search (P : Params K) (l : Leaf K V) (key : K) : R (Option V) :=
 
 /-! ### Insert / Update descent -/
 
+/-- "preemptively update smallest value" (int64.go 399-404 / 528-533): when the
+    descent takes child 0 and the key is below that child's `smallest()`, the
+    first separator becomes the key. -/
+def lowerFirst (P : Params K) (key : K) (index : Nat) (runts : List K) {d : Nat} (child : Node K V d) :
+    R (List K) :=
+  if index = 0 then
+    match Node.smallest child with
+    | .error e => .error e
+    | .ok smallest => .ok (if P.lt key smallest then runts.set 0 key else runts)
+  else .ok runts
+
 /-- One iteration of the `for n.isInternal()` loop of `Insert`/`Update`
     (int64.go 392-427 / 521-556), followed by the rest of the descent.
     Returns the rewritten node, the allocation counter and the callback
@@ -85,10 +96,7 @@ def upsertNode (P : Params K) (key : K) (f : Option V → V) :
     let index := searchLE P.lt key p.runts
     let some child := p.kids[index]? | throw .indexOutOfRange
     -- pre-emptive update of the smallest value (399-404)
-    let runts ← (if index = 0 then do
-        let smallest ← Node.smallest child
-        pure (if P.lt key smallest then p.runts.set 0 key else p.runts)
-      else pure p.runts : R (List K))
+    let runts ← lowerFirst P key index p.runts child
     -- split the child when required (407-422)
     let (left, right?) ← Node.maybeSplit P.order nid child
     match right? with
